@@ -609,7 +609,13 @@ impl<'a, 'b, 'c> G<'a, 'b, 'c> {
             em.raw("//// modülé 💣 doc\n");
         }
         let imports = self.imports[m].clone();
-        for imp in &imports {
+        // an import that resolves to nothing (missing dependency, typo) in front of, between or
+        // after the others: the others keep working
+        let bogus_at = if self.c.chance(40) { Some(self.c.below(imports.len() + 1)) } else { None };
+        for (ii, imp) in imports.iter().enumerate() {
+            if bogus_at == Some(ii) {
+                em.raw("import zmissing/znowhere\n");
+            }
             em.raw("import ");
             em.raw(&self.mods[imp.module].name.clone());
             if !imp.unq.is_empty() {
@@ -634,6 +640,9 @@ impl<'a, 'b, 'c> G<'a, 'b, 'c> {
                 em.raw(a);
             }
             em.raw("\n");
+        }
+        if bogus_at == Some(imports.len()) {
+            em.raw("import zmissing/znowhere\n");
         }
         em.raw("\n");
         // items in random order: build the list then shuffle by choice
@@ -1361,6 +1370,29 @@ impl<'a, 'b, 'c> G<'a, 'b, 'c> {
         self.indent(em, ind);
         em.raw("}");
     }
+}
+
+/// Two typed modules appended to the root package: a record type, and a function whose parameter
+/// is spelled like the import accessor of that type's module.  In `zrec.zl` the base is the
+/// parameter (a record), not the module; in the annotation `zrec.Zr` it is the module.
+pub fn add_shadowing_record_param(sw: &mut ScopedWs) {
+    let Some(pkg0_module) = sw.ws.files.iter().position(|f| f.pkg == 0 && f.module.is_some()) else { return };
+    let root = sw.ws.packages[sw.ws.files[pkg0_module].pkg].root.clone();
+    if sw.ws.files.iter().any(|f| f.module.as_deref() == Some("zrec") || f.module.as_deref() == Some("zuse")) {
+        return;
+    }
+    let rec = sw.ws.files.len();
+    sw.ws.files.push(WsFile { path: format!("{}/src/zrec.gleam", root), pkg: 0, text: "pub type Zr {\n  Zr(zl: Int)\n}\n".into(), module: Some("zrec".into()) });
+    let text = "import zrec\n\npub fn zu(zrec: zrec.Zr) {\n  zrec.zl\n}\n".to_string();
+    let usef = sw.ws.files.len();
+    let p_at = text.find("(zrec").unwrap() + 1;
+    let u_at = text.find("  zrec.zl").unwrap() + 2;
+    sw.ws.files.push(WsFile { path: format!("{}/src/zuse.gleam", root), pkg: 0, text, module: Some("zuse".into()) });
+    let _ = rec;
+    sw.decls.push(Decl { kind: DK::Param, file: usef, name: "zrec".into(), name_range: (p_at, p_at + 4), focus_max: (p_at, p_at + 4), public: false });
+    let d = sw.decls.len() - 1;
+    sw.occs.push(Occ { file: usef, range: (p_at, p_at + 4), text: "zrec".into(), role: Role::Def, expected: Some(d), tier: OccTier::Core, shadow_depth: 1, what: "parameter spelled like an import accessor" });
+    sw.occs.push(Occ { file: usef, range: (u_at, u_at + 4), text: "zrec".into(), role: Role::Use, expected: Some(d), tier: OccTier::Core, shadow_depth: 2, what: "record base spelled like an import accessor" });
 }
 
 /// Corpus workspaces: every .gleam file in /verif/corpus + repo fixtures as one package.
